@@ -259,7 +259,9 @@ def gen_config(cs, tier='quick', force=None):
     if c['program'] == 'hip' and not force.get('inputs') and cs.choose(12, 'special') == 11:
         # the -9999.0 exclusion rule of the summary
         c['special'] = 'exclusion_rule'
-        inputs = [dict(WL.HIP_9999_INPUT)] + [i_ for i_ in inputs if i_['name'] == 'Reservoir Area' and not i_['edge']][:1]
+        # (an extra input is kept only if its arguments do not depend on the base input, which this scenario replaces)
+        inputs = [dict(WL.HIP_9999_INPUT)] + [i_ for i_ in inputs if i_['name'] == 'Reservoir Area' and not i_['edge']
+                                                and i_.get('hash_arg') is None][:1]
     c['inputs'] = inputs
     nout = 1 + cs.choose(5, 'nout')
     on = list(outs)
